@@ -212,10 +212,7 @@ func (p *Path) afterResume() {
 }
 
 func (p *Path) modelOrNil() map[string]uint64 {
-	if r := p.sol.Check(); r == "sat" {
-		return p.model()
-	}
-	return map[string]uint64{}
+	return p.fullModel(nil)
 }
 
 // schedPoint: a visible operation is about to happen; maybe preempt.
